@@ -42,3 +42,4 @@ def rules(ctx):
     S.header_codec_rules(ctx)
     S.mutator_release_rules(ctx)
     S.child_pair_rules(ctx)
+    S.root_pair_rules(ctx)
